@@ -10,7 +10,12 @@ T       solver._rescale regenerated into Gen/solver_term.v and validated against
 C       the model, run by vm_compute on the per-round booleans recomputed (numpy float32) from the real
         solver context after every real iteration, vs the real solver_niter / ctx.done / overflow /
         nsolving / number of executed iterations.
-oracle  every world of a mixed batch vs a same-size batch made of copies of that world (bit-exact),
+        + the fast-path skip pin: an early return on a zero change counter that skips anything but the
+        Hessian update may test ctx.state_changed_count (or d.nefc) only (iter_skip_table).
+oracle  warm-started solve sequences (nv 36/48/68 friction arms under bang-bang control, generator of
+        bin/props/C06.py): after every solve a world that stopped below the iteration cap satisfies the
+        termination criterion recomputed in float64 from its final qacc;
+        every world of a mixed batch vs a same-size batch made of copies of that world (bit-exact),
         graph_conditional on vs off (bit-exact), niter <= limit."""
 
 from __future__ import annotations
@@ -25,7 +30,7 @@ import propkit
 import vlib
 
 MANIFEST = {
-  "text": "proof: for the transcribed termination kernels and both loop forms, with an arbitrary per-world per-iteration 'tolerance met' oracle: niter <= limit; ITERATIONS bit (entered clear, limit >= 1) iff the world never met the tolerance within the limit; nsolving counts not-done worlds and capture_while stops within `limit` rounds; a done world's (niter, done, overflow) never change again; a world's final state depends only on its own oracle column (batch independence, graph_conditional on/off transparent). iterations = 0 is excluded from the bit theorem (proved refuted there: no iteration, no bit). A done world's protected solver state (qacc, forces, ...) is proved frozen for kernels of the guarded form (C25_done_world_frozen); that the kernels of _solver_iteration HAVE that form is the source-level guard table (S, ast pass + vm_compute join with Skel_pipeline, checked every run) and is additionally tested on the real solver (batch vs copies, graph_conditional on/off, bit-exact)",
+  "text": "proof: for the transcribed termination kernels and both loop forms, with an arbitrary per-world per-iteration 'tolerance met' oracle: niter <= limit; ITERATIONS bit (entered clear, limit >= 1) iff the world never met the tolerance within the limit; the fast-path early returns of the iteration kernels are pinned to ctx.state_changed_count (S); nsolving counts not-done worlds and capture_while stops within `limit` rounds; a done world's (niter, done, overflow) never change again; a world's final state depends only on its own oracle column (batch independence, graph_conditional on/off transparent). iterations = 0 is excluded from the bit theorem (proved refuted there: no iteration, no bit). A done world's protected solver state (qacc, forces, ...) is proved frozen for kernels of the guarded form (C25_done_world_frozen); that the kernels of _solver_iteration HAVE that form is the source-level guard table (S, ast pass + vm_compute join with Skel_pipeline, checked every run) and is additionally tested on the real solver (batch vs copies, graph_conditional on/off, bit-exact)",
   "note": "trusted: Coq kernel; hand transcription Model/Term.v (tied by the per-run correspondence incl. the number of executed iterations); bin/gens_term.py ast pass and its scratch-field list; bin/extract_launch.py; numpy float32 re-evaluation of the termination test",
   "technique": "Rocq proof over a hand-written executable model (C) + source skeleton facts (S) + translation validation of _rescale (T) + differential oracle",
   "engine": "coq",
@@ -288,6 +293,92 @@ def experiments(res, quick):
   return lines, meta, fails, ndisc, zero_report
 
 
+def termination_criterion64(m, d, mm, dd, w):
+  """(scaled |gradient|, scaled half Newton decrement) of the constrained Gauss cost at the final qacc of
+  world w, recomputed in float64 from MuJoCo's inertia and mjwarp's rows (pyramidal rows only)."""
+  import mujoco
+
+  from props import C24
+
+  nv = m.nv
+  M = np.zeros((nv, nv))
+  for i in range(nv):
+    e, c = np.zeros(nv), np.zeros(nv)
+    e[i] = 1.0
+    mujoco.mj_mulM(m, d, c, e)
+    M[:, i] = c
+  nefc, ne, nf = int(dd.nefc.numpy()[w]), int(dd.ne.numpy()[w]), int(dd.nf.numpy()[w])
+  a = dd.qacc.numpy()[w].astype(np.float64)
+  J = C24.efc_J_dense(mm, dd, w, nefc, nv) if nefc else np.zeros((0, nv))
+  D = dd.efc.D.numpy()[w, :nefc].astype(np.float64)
+  fl = dd.efc.frictionloss.numpy()[w, :nefc].astype(np.float64)
+  jar = J @ a - dd.efc.aref.numpy()[w, :nefc].astype(np.float64)
+  f, act = np.zeros(nefc), np.zeros(nefc)
+  for r in range(nefc):
+    if r < ne:
+      f[r], act[r] = -D[r] * jar[r], 1.0
+    elif r < ne + nf:
+      rf = fl[r] / D[r]
+      if jar[r] <= -rf:
+        f[r] = fl[r]
+      elif jar[r] >= rf:
+        f[r] = -fl[r]
+      else:
+        f[r], act[r] = -D[r] * jar[r], 1.0
+    elif jar[r] < 0:
+      f[r], act[r] = -D[r] * jar[r], 1.0
+  g = M @ a - dd.qfrc_smooth.numpy()[w].astype(np.float64) - J.T @ f
+  H = M + J.T @ (J * (D * act)[:, None])
+  dec = float(g @ np.linalg.solve(H, g))
+  mi = mm.stat.meaninertia.numpy()
+  sc = float(mi[w % len(mi)]) * nv
+  return float(np.linalg.norm(g)) / sc, 0.5 * dec / sc
+
+
+SLACK = 10.0  # float32 noise of the gradient: observed scaled |g| <= 6e-6, scaled half decrement <= 6e-10 at tol 1e-6
+
+
+def sequence_check(seq, upto=None):
+  """Run one warm-started sequence; list of worlds marked done below the cap whose criterion does not hold."""
+  from props import C06
+
+  bad, stats = [], {"solves": 0, "below_cap": 0, "worst_decrement_over_tol": 0.0, "niter_max": 0}
+
+  def on_step(k, m, dl, mm, dd):
+    ni, L = dd.solver_niter.numpy(), int(mm.opt.iterations)
+    tol = mm.opt.tolerance.numpy()
+    for w in range(dd.nworld):
+      stats["solves"] += 1
+      stats["niter_max"] = max(stats["niter_max"], int(ni[w]))
+      if int(ni[w]) >= L:
+        continue  # stopped by the iteration cap: reported through the ITERATIONS bit
+      stats["below_cap"] += 1
+      sg, sd = termination_criterion64(m, dl[w], mm, dd, w)
+      t = float(tol[w % len(tol)])
+      stats["worst_decrement_over_tol"] = max(stats["worst_decrement_over_tol"], sd / t)
+      if not (sg < SLACK * t or sd < SLACK * t):
+        bad.append({"step": k, "world": w, "niter": int(ni[w]), "mujoco_niter": int(dl[w].solver_niter[0]), "scaled_gradient": sg, "scaled_half_newton_decrement": sd, "tolerance": t})
+
+  C06.run_sequence(seq, upto=upto, on_step=on_step)
+  return bad, stats
+
+
+def sequence_oracle(res, quick):
+  fails, agg = [], []
+  cfgs = [(9, "dense", 1), (9, "sparse", 2), (12, "dense", 2), (17, "sparse", 1)]
+  for i, (n, j, w) in enumerate(cfgs):
+    seq = {"narm": n, "jacobian": j, "nworld": w, "seed": vlib.seed() + 250 + i, "nstep": 30 if quick else 160, "period": 5}
+    bad, st = sequence_check(seq)
+    res.count(st["solves"])
+    res.nontrivial(("sequence", 4 * n, j, w))
+    agg.append({"nv": 4 * n, "jacobian": j, "nworld": w, **st, "violations": len(bad)})
+    if bad:
+      b = bad[0]
+      fails.append((f"C25:done-without-termination-criterion:nv{4 * n}:{j}", f"warm-started solve {b['step']} of a bang-bang friction-arm sequence (nv={4 * n}, {j}): world {b['world']} marked done after {b['niter']} iteration(s) (MuJoCo: {b['mujoco_niter']}) with scaled gradient {b['scaled_gradient']:.3g} and scaled half Newton decrement {b['scaled_half_newton_decrement']:.3g} >= {SLACK:g} x tolerance {b['tolerance']:g}; {len(bad)} such solves in the sequence", {"kind": "sequence", "sequence": seq, **b}))
+  res.extra["sequence_oracle"] = agg
+  return fails
+
+
 GUARD_DEFS = """
 From Coq Require Import String.
 From VF Require Import Model.Pipeline Gen.Skel_pipeline Gen.solver_term.
@@ -317,6 +408,10 @@ Definition guard_fact : bool :=
   forallb (fun l => all_scratch (snd l) || table_ok (fst l)) iter_launches &&
   inter_nil iter_scratch post_loop_reads &&
   forallb (fun f => String.prefix "ctx." f) iter_scratch.
+(* fast-path skips: only the Hessian update may be skipped on ctx.quad_changed_count *)
+Definition skip_fact : bool :=
+  negb (Nat.eqb (List.length iter_skip_table) 0) &&
+  forallb (fun r => forallb (fun c => mem c skip_ok_counters) (fst (snd r)) || forallb (fun f => mem f hessian_only) (snd (snd r))) iter_skip_table.
 Local Close Scope string_scope.
 """
 
@@ -336,11 +431,23 @@ def guard_obligations(res, g):
   res.obligation("scratch fields are not read after the iteration loop of _solve", not scratch_after, f"post-loop reads {g.post_loop_reads}")
   if scratch_after:
     bad.append({"post_loop_reads_scratch": scratch_after})
+  # fast-path skip pin
+  nsk = 0
+  for r in g.rows:
+    for k in r.get("skips", []):
+      nsk += 1
+      res.obligation(f"skip-counter:{r['kernel']}@{r['host']}:{r['line']}", k["ok"], f"early return when {k['param']} (= {k['bound']}) is 0 skips stores to {k['stores_after']}" + ("" if k["ok"] else ": only ctx.state_changed_count / d.nefc may gate anything but ctx.h"))
+      if not k["ok"]:
+        bad.append({"kernel": r["kernel"], "host": r["host"], "line": r["line"], "why": f"fast-path skip of {k['stores_after']} tests {k['bound']}"})
+  res.obligation("fast-path skip table is not empty (pin still anchored)", nsk > 0, f"{nsk} early returns on change counters")
+  if nsk == 0:
+    bad.append({"kernel": "skip-table-empty"})
+  res.extra["fast_path_skips"] = [{"kernel": r["kernel"], **{a: b for a, b in k.items()}} for r in g.rows for k in r.get("skips", [])]
   res.extra["iteration_kernels"] = [{"kernel": r["kernel"], "outs": r["outs"], "guard": r["guards"] or r["why"], "verdict": r["verdict"]} for r in g.rows]
   try:
-    v = tvalid.run_cases("C25g", [], ["if guard_fact then 0%nat else 2%nat"], extra_defs=GUARD_DEFS)
-    okc = v == [0]
-    detail = "Skel_pipeline flatten of _solver_iteration: every launch writes scratch only or is 'ok' in iter_guard_table"
+    v = tvalid.run_cases("C25g", [], ["if guard_fact then 0%nat else 2%nat", "if skip_fact then 0%nat else 2%nat"], extra_defs=GUARD_DEFS)
+    okc = v == [0, 0]
+    detail = f"verdicts {v}: Skel_pipeline flatten of _solver_iteration: every launch writes scratch only or is 'ok' in iter_guard_table; iter_skip_table: skips of anything but ctx.h test state_changed_count / d.nefc"
   except Exception as e:  # Gen file does not compile: fail closed
     okc, detail = False, f"{type(e).__name__}: {str(e)[-400:]}"
   res.obligation("vm_compute: launches of _solver_iteration (Skel_pipeline) are covered by the guard table", okc, detail)
@@ -387,6 +494,8 @@ def run(res):
   vlib.log(f"[C25] S/T done, {time.time() - res.t0:.0f}s")
   lines, meta, fails, ndisc, zero_report = experiments(res, quick)
   vlib.log(f"[C25] real-solver runs done ({len(lines)} cases), {time.time() - res.t0:.0f}s")
+  fails = fails + sequence_oracle(res, quick)
+  vlib.log(f"[C25] warm-started sequences done, {time.time() - res.t0:.0f}s")
   import tvalid
 
   verdicts = tvalid.run_cases("C25", ["Model.Term"], lines) if lines else []
@@ -433,6 +542,7 @@ def run(res):
     "iterations >= 1 for the ITERATIONS-bit theorem; iterations = 0 runs no iteration and sets no bit (C25_iterations_zero, observed on the real code)",
     "the bit theorem is per solve, for a world entered with the bit clear: d.overflow is sticky and only reset_data clears it",
     "bit-identity of a done world's qacc/forces under extra iterations follows from the guard table (S) and is tested (batch vs copies, graph_conditional on/off), not proved from kernel semantics",
+    "sequence oracle: pyramidal rows only (friction arms); criterion = scaled |gradient| or scaled half Newton decrement below 10 x tolerance in float64 (the solver's third criterion, the cost improvement of the last step, is bounded by the decrement of the previous iterate and is not recomputed)",
     "CPU back end (capture_while is a host loop); per-round booleans recomputed in numpy float32, near-tie comparisons discarded",
   ]
 
@@ -444,6 +554,13 @@ def replay(res, path):
   import mujoco_warp as mjw
 
   r = json.load(open(path))["replay"]
+  if isinstance(r, dict) and r.get("kind") == "sequence":
+    bad, st = sequence_check(r["sequence"], upto=int(r["step"]))
+    hit = [b for b in bad if b["step"] == int(r["step"]) and b["world"] == int(r["world"])]
+    print(f"sequence {r['sequence']}: solve {r['step']} world {r['world']}")
+    print("failing solves up to that step:", [(b["step"], b["world"], b["niter"], round(b["scaled_half_newton_decrement"], 4)) for b in bad])
+    print("FAIL reproduced" if hit else "not reproduced")
+    return 1 if hit else 0
   if not isinstance(r, dict) or "xml" not in r or "state_data" not in r:
     print("no concrete input in this replay file (broken obligation / model mismatch): re-run ./check C25")
     return 1
